@@ -1,5 +1,6 @@
 """Bounded stand-in for C02: reopen in a fresh session, lookup by id and by every id prefix (never counted as proved)."""
 import json
+import os
 import random
 
 from .common import Budget, project_scratch, script_header
@@ -62,6 +63,32 @@ with tempfile.TemporaryDirectory() as d:
     return evals, distinct, failures
 
 
+def lazy_checks():
+    """open_job(sp) writes nothing and the handle knows its state point -- including the empty one"""
+    import signac
+    out = []
+    with project_scratch() as p:
+        for sp in ({}, {"a": {}}, {"a": []}, {"a": None}, {"a": 0}, {"a": ""}, {"a": False}):
+            before = sorted(os.listdir(p.workspace))
+            j = p.open_job(sp)
+            try:
+                got = json.loads(json.dumps(dict(j.cached_statepoint)))
+                r = repr(j)
+                got2 = json.loads(json.dumps(j.statepoint()))
+            except Exception as e:
+                out.append(("lazy:" + json.dumps(sp), f"uninitialised handle for state point {sp}: {type(e).__name__}: {e}"))
+                continue
+            if got != sp or got2 != sp:
+                out.append(("lazy:" + json.dumps(sp), f"uninitialised handle for {sp} reports {got} / {got2}"))
+            if sorted(os.listdir(p.workspace)) != before:
+                out.append(("lazy:" + json.dumps(sp), f"open_job({sp}) / reading its state point wrote to the workspace"))
+            j.init()
+            q = signac.Project(p.path).open_job(id=j.id)
+            if json.loads(json.dumps(q.statepoint())) != sp or json.loads(json.dumps(dict(q.cached_statepoint))) != sp:
+                out.append(("reopen:" + json.dumps(sp), f"job {sp} reopened by id in a fresh session reports {q.statepoint()}"))
+    return out
+
+
 def run(tier="quick", seed=0):
     b = Budget(12 if tier == "quick" else 240)
     r = run_histories(seed + 2, Budget(6 if tier == "quick" else 120), n_hist=20 if tier == "quick" else 1000, length=14 if tier == "quick" else 40,
@@ -70,6 +97,9 @@ def run(tier="quick", seed=0):
     r["evaluations"] += e
     r["distinct_nontrivial"] += len(d)
     r["failures"] = f + r["failures"]
+    for key, desc in lazy_checks():
+        r["failures"].insert(0, {"key": key, "description": desc, "script": ""})
+    r["evaluations"] += 7
     r.update(scope="random histories of init / handle copies / cache / remove over 2 projects with model equality after every step; plus id-prefix lookup (lengths 1-4, 31, 32, unknown ids) "
                    "in a fresh session with a partially filled cache on projects of 1-24 jobs", rule=RULE)
     return r
